@@ -102,7 +102,9 @@ CHECKS = {
                 "coordinates, any index lists, shifts and occupancy) is executable and returns every atom; every accepted rearrange call whose parking "
                 "coordinates are pairwise different and whose destination is vacant delivers zone[src] to zone[dst]; on a zone where parking is "
                 "possible (parking_ok, evaluated in Coq for every enumerated layout) EVERY rearrange call meeting the documented preconditions is accepted, "
-                "strict and delivers (C08_rearrange_documented_call_delivers); 'every accepted rearrange call is "
+                "strict and delivers (C08_rearrange_documented_call_delivers), and EVERY layout two_col_zone.get_spec builds with pitch > 6 and a positive gate "
+                "spacing is such a zone, for any number of pairs and rows (C08_rearrange_on_every_two_column_layout, over Model.Builders; the real zone "
+                "coordinates are compared with the builder model per layout); 'every accepted rearrange call is "
                 "executable' is REFUTED in Coq with a witness (pair pitch 6: known finding). "
                 "PROVED for moves played in several legs (move_by_waypoints with pick on the first call and drop on the last): consecutive paths glued at "
                 "the waypoint they share simulate EXACTLY like the sequence of legs, from every state (merge_legs_sound), so the transport theorem "
